@@ -21,7 +21,7 @@ def mk_client(Client, world, sm, cfg):
     if cfg["tls"]:
         kw["tls_context"] = sm.tls_context()
     server = "/tmp/mc.sock" if cfg["unix"] else ("mc.example", 11211)
-    return Client(server, socket_module=sm, connect_timeout=CT, timeout=IOT, no_delay=cfg["nodelay"], default_noreply=False, **kw)
+    return Client(server, socket_module=sm, connect_timeout=cfg.get("ct", CT), timeout=cfg.get("iot", IOT), no_delay=cfg["nodelay"], default_noreply=False, **kw)
 
 
 def connect_plan_to_faults(cfg, naddr, fails, kind="oserror"):
@@ -76,6 +76,10 @@ def connect_plan_to_faults(cfg, naddr, fails, kind="oserror"):
     return plan
 
 
+def _unused():
+    return None
+
+
 def canon_log(world, start, cfg, sock_id):
     """socket-API ledger of one call -> the Lean model's event vocabulary"""
     out = []
@@ -111,6 +115,7 @@ def ledger_events(world, start):
     L = world.ledger[start:]
     sockcalls = 0
     ka = {}
+    nto = {}
     i = 0
     while i < len(L):
         name, cid, args, tag = L[i]
@@ -128,8 +133,10 @@ def ledger_events(world, start):
                 ka[cid] = ka.get(cid, 0) + 1
                 if ka[cid] == 4:
                     evs.append(f"ka:{cid}")
-        elif name == "settimeout" and not failed:
-            evs.append(("toc" if args[0] == CT else "toi" if args[0] == IOT else "to?") + f":{cid}")
+        elif name == "settimeout":
+            nto[cid] = nto.get(cid, 0) + 1
+            if not failed:
+                evs.append(("toc" if nto[cid] == 1 else "toi") + f":{cid}")
         elif name == "connect" and not failed:
             evs.append(f"connect:{cid}:{sockcalls - 1}")
         elif name == "close":
@@ -178,7 +185,10 @@ def main(argv):
             for keepalive in (False, True):
                 if unix and (nodelay and keepalive):
                     continue
-                cfgs.append({"unix": unix, "tls": tls, "nodelay": nodelay, "keepalive": keepalive})
+                for ct, iot in ((1.5, 2.5), (1.5, None), (None, 2.5), (None, None), (2.0, 2.0)):
+                    if (ct, iot) != (1.5, 2.5) and (nodelay or keepalive) and not tls:
+                        continue
+                    cfgs.append({"unix": unix, "tls": tls, "nodelay": nodelay, "keepalive": keepalive, "ct": ct, "iot": iot})
     # ---- part 1: connect-phase plans, compared with the Lean model --------------------------------------
     for cfg in cfgs:
         for naddr in ((1,) if cfg["unix"] else (1, 2, 3)):
@@ -229,14 +239,15 @@ def main(argv):
                     ctx.violation("a failed call left a socket attached to the client", case, tags=tags)
                 # timeouts
                 for cid, api, tmo in world.io_timeouts:
-                    if tmo != IOT:
-                        ctx.violation(f"{api} performed with timeout {tmo!r} in force instead of the I/O timeout", case, tags=tags)
+                    if tmo != cfg["iot"]:
+                        ctx.violation(f"{api} performed with timeout {tmo!r} in force instead of the configured I/O timeout {cfg['iot']!r}", case, tags=tags + ["io-timeout"])
                         break
                 for n, (name, cid, args, tag) in enumerate(world.ledger):
                     if name == "connect":
-                        before = [e for e in world.ledger[:n] if e[0] == "settimeout" and e[1] == cid]
-                        if not before or before[-1][2][0] != CT:
-                            ctx.violation("connect() not performed under the connect timeout", case, tags=tags)
+                        before = [e for e in world.ledger[:n] if e[0] == "settimeout" and e[1] == cid and not (world.ledger[world.ledger.index(e) + 1][0] == "fault" if world.ledger.index(e) + 1 < len(world.ledger) else False)]
+                        in_force = before[-1][2][0] if before else "unset"
+                        if in_force != cfg["ct"]:
+                            ctx.violation(f"connect() performed with timeout {in_force!r} in force instead of the configured connect timeout {cfg['ct']!r}", case, tags=tags + ["connect-timeout"])
                 if world.violations:
                     ctx.violation("I/O on the raw socket instead of the TLS wrapper", dict(case, detail=world.violations[:2]), tags=tags)
                 # next call on a healthy plan reconnects and works
@@ -313,8 +324,8 @@ def main(argv):
                 ctx.case((tuple(cfg.items()), combo, kind), sample=None)
                 ctx.count("scenario-fault-plans")
                 for cid, api, tmo in world.io_timeouts:
-                    if tmo != IOT:
-                        ctx.violation(f"{api} performed with timeout {tmo!r} in force instead of the I/O timeout", case)
+                    if tmo != cfg["iot"]:
+                        ctx.violation(f"{api} performed with timeout {tmo!r} in force instead of the configured I/O timeout {cfg['iot']!r}", case, tags=["io-timeout"])
                         break
                 # after the faults are consumed a further call must work on a fresh or healthy connection
                 world.arm({})
